@@ -661,16 +661,6 @@ def full_in_domain(t):
     from . import stages
     if not t.strip() or not stages.in_domain("".join(ch for ch in t if ch not in FULL_EXTRA and ch != "\r")):
         return False
-    # the one deliberate omission of the glyph model: the diamond '#' draws for a diagonal neighbour
-    rows = t.split("\n")
-    for y, row in enumerate(rows):
-        for x, ch in enumerate(row):
-            if ch == "#":
-                for dy in (-1, 1):
-                    if 0 <= y + dy < len(rows):
-                        for dx in (-1, 1):
-                            if 0 <= x + dx < len(rows[y + dy]) and rows[y + dy][x + dx] != " ":
-                                return False
     return True
 
 
@@ -712,7 +702,7 @@ def c12(tier):
                     ["ModelC12", "ModelC09"])
     run.model("MC_Doc", cfg)
     # one test per transition of the glyph tables: every modelled character with at most K neighbours
-    modelled = [45, 126, 124, 58, 33, 43, 46, 39, 44, 96, 95, 61, 47, 92, 40, 41, 62, 60, 94, 118, 86, 42, 111, 79, 88, 8217]
+    modelled = [45, 126, 124, 58, 33, 43, 46, 39, 44, 96, 95, 61, 47, 92, 40, 41, 62, 60, 94, 118, 86, 42, 111, 79, 88, 35, 8217]
     cfgn = write_cfg("MC_Nbhd", {"K": 1 if tier == "quick" else 2, "Centres": tla_set(modelled), "Around": tla_set(modelled)},
                      ["ModelC09", "ModelC05", "ModelC12", "Emit"])
     resn = run.model("MC_Nbhd", cfgn, timeout=10000)
